@@ -34,6 +34,7 @@ MonInitVal ==
     term |-> {},                 \* accepted terminating requests in this call chain
     termLate |-> {},             \* ... that landed after the plan had already ended (post-plan window)
     failedPause |-> FALSE,       \* a pause / suspension was requested while not resumable
+    failedPauseLate |-> FALSE,   \* ... and it landed after the plan had already ended (tail): either status is acceptable
     inObsClose |-> FALSE,        \* (within one obs) a close_run message was seen: the next stop doc is the plan's
     callRuns |-> 0,              \* nruns when the current RE(...) call started
     \* C04 / C09 / C10 / C11 bookkeeping over msg events
@@ -351,7 +352,7 @@ UpdState(m, e) ==
 \* cause of the end of the call, for C02: what status must a run closed by the engine have
 ExpectedStatus(m, outcome) ==
   IF outcome \notin ({"ok", "interrupted"} \cup ControlExc) THEN {"fail"}
-  ELSE IF m.termLate # {} THEN {"abort", "success"}      \* the plan had already ended when the request landed
+  ELSE IF m.termLate # {} \/ m.failedPauseLate THEN {"abort", "success"}      \* the plan had already ended when the request landed
   ELSE IF m.term \cap {"abort", "halt"} # {} /\ "stop" \in m.term THEN {"abort", "success"}
   ELSE IF m.term \cap {"abort", "halt"} # {} \/ m.failedPause THEN {"abort"}
   ELSE {"success"}
@@ -457,7 +458,8 @@ UpdReqRet(m, e, s2) ==
       m2 == IF acc /\ kind \in {"abort", "stop", "halt"} /\ last.st # "idle"
             THEN (IF last.pc = "tail" THEN [m1x EXCEPT !.termLate = @ \cup {kind}] ELSE [m1x EXCEPT !.term = @ \cup {kind}])
             ELSE m1x
-      m3 == IF kind \in {"pause", "suspend"} /\ ~last.res /\ last.st \in {"running", "paused"} /\ acc THEN [m2 EXCEPT !.failedPause = TRUE] ELSE m2
+      m3 == IF kind \in {"pause", "suspend"} /\ ~last.res /\ last.st \in {"running", "paused"} /\ acc
+            THEN [m2 EXCEPT !.failedPause = TRUE, !.failedPauseLate = (@ \/ last.pc = "tail")] ELSE m2
       m4 == IF kind = "defer" /\ acc THEN [m3 EXCEPT !.deferPending = TRUE] ELSE m3
       m5 == IF kind = "suspend" /\ acc /\ last.res /\ last.st = "running" THEN [m4 EXCEPT !.susp = @ \cup {e[3]}] ELSE m4
   IN m5
@@ -469,7 +471,7 @@ UpdCall(m, e, s) ==
                                !.bundle = [k \in RunKeys |-> [open |-> FALSE, mask |-> 0, n |-> 0, collide |-> FALSE]],
                                !.expectEvent = "none", !.gotEvent = FALSE, !.suspStopDue = {}, !.gotData = {},
                                !.keyOrd = [k \in RunKeys |-> 0],
-                               !.term = {}, !.termLate = {}, !.failedPause = FALSE, !.callRuns = m.nruns, !.deferPending = FALSE,
+                               !.term = {}, !.termLate = {}, !.failedPause = FALSE, !.failedPauseLate = FALSE, !.callRuns = m.nruns, !.deferPending = FALSE,
                                !.deferCkpt = FALSE, !.since = <<>>, !.expect = <<>>, !.replaying = FALSE, !.ckpt = TRUE,
                                !.susp = {}, !.suspWait = FALSE, !.suspEver = FALSE, !.pausedNow = FALSE, !.faulty = FALSE, !.lastCmd = "", !.reqs = <<>>,
                                !.planDone = FALSE,
